@@ -298,7 +298,7 @@ def run(ctx, chk):
         for idx, e in enumerate(pa.events):
             if e.kind == "store" and ptr_key(e.args[0])[1] == sub_off and isinstance(ptr_key(e.args[0])[0], tuple) and ptr_key(e.args[0])[0][0] == "ld":
                 v = e.args[1]
-                if v[0] == "op" and v[1] == "add" and ("c", (1 << 64) - 1) in (v[3], v[4]):
+                if v[0] == "op" and v[1] == "add" and ("c", (1 << (P.type_bits(v[2]) or 64)) - 1) in (v[3], v[4]):
                     ndec += 1
                     zero = pa.st.truth.get(("icmp", "eq", v, ("c", 0)))
                     later_pop = any(x.kind == "call" and x.callee == "_cbor_stack_pop" for x in pa.events[idx:])
@@ -453,6 +453,11 @@ def run(ctx, chk):
     chk.rule("C01.slot-reads", "every loop that reads the slot table of a container (copy, describe, size, serialize, release) is bounded "
              "by the element count, never by the capacity: slots beyond the count hold whatever the allocator returned")
     _r1.check_slot_reads_below_count(chk, "C01.slot-reads", prog, eff)
+    chk.rule("C01.narrowing", "no 64-bit quantity is converted to a narrower integer type except to take one byte of it or below a range "
+             "test that makes the conversion lossless: a declared count kept in 32 bits closes its container after count mod 2^32 members "
+             "and hands a partially built item to the caller (shared with C02.narrowing)")
+    import rules as _rnw
+    _rnw.check_narrowing(chk, "C01.narrowing", prog, eff=eff)
     chk.rule("C01.window-reads", "every read through a (byte pointer, length) parameter pair - the code point counter walking a text payload, the "
              "builders copying a payload out of the caller's buffer, a window handed on to a callee - lies inside the window on every path "
              "(forward dataflow over lock-step congruence classes of cursors, indices and remaining-counts; lib/window.py)")
